@@ -196,6 +196,21 @@ def check(run):
                             base.setdefault(key, a.copy())
                 if k <= 2:
                     run.sample(dict(file_type=ftype, N=N, header=hkind, compression=comp, requests=len(reqs)))
+                # an explicitly empty request: a table with no columns (and the header as metadata), not the defaults
+                for label, kw in (('load=[]', dict(load=[])), ('load=()', dict(load=())),) + ((('load_pos=False,load_vel=False', dict(load_pos=False, load_vel=False)),) if ftype in ('rvint', 'pack9') else ()):
+                    run.ev()
+                    run.nt((ftype, 'empty-request', label))
+                    try:
+                        with warnings.catch_warnings():
+                            warnings.simplefilter('ignore')
+                            t = RA.read_asdf(fn, verbose=False, **kw)
+                    except Exception as e:
+                        run.count('empty_request_refused')  # a refusal is not a wrong table
+                        continue
+                    if len(t.colnames):
+                        run.violation('read-asdf-column-set', dict(got=t.colnames, expected=[], file_type=ftype, N=N, request=label))
+                    elif any(t.meta.get(k2) != v for k2, v in hdr.items()):
+                        run.violation('read-asdf-meta', dict(file_type=ftype, N=N, request=label))
                 # explicit colname
                 t = RA.read_asdf(fn, colname=ftype, verbose=False)
                 run.ev()
